@@ -10,7 +10,7 @@ for s in $SEEDS; do
   [ -f $d/patch.diff ] || continue
   prop=$(python3 -c "import json;print(json.load(open('$d/meta.json'))['property'])")
   tier=${KILL_TIER:-quick}
-  if ! git -C /repo apply $d/patch.diff 2>/dev/null; then echo "$s $prop PATCH-DOES-NOT-APPLY"; continue; fi
+  if ! git -C /repo apply /verif/$d/patch.diff 2>/dev/null; then echo "$s $prop PATCH-DOES-NOT-APPLY"; continue; fi
   for p in $prop $(python3 -c "import json;print(' '.join(json.load(open('$d/meta.json')).get('also',[])))"); do
     out=$(./run.sh $p $tier 2>&1); code=$?
     case $code in
